@@ -18,13 +18,14 @@ RULE = (
     "zero-below-subdiagonal column masks, Q8 strictly-lower support masks) ; non-trivial = A non-zero; distinct = sha1(input)"
 )
 BOUNDS = {
-    "quick": "n<=5; all 2^(n-2) column masks x 2 entry classes; all 2^(n(n-1)/2) lower support masks for n<=4; scalings 2^+-27",
+    "quick": "n<=5; structure classes incl. nearly-Hermitian / nearly-triangular / nearly-Hessenberg perturbations (2^-20..2^-30, float32 triangle); all 2^(n-2) column masks x 2 entry classes; all 2^(n(n-1)/2) lower support masks for n<=4; scalings 2^+-27",
     "thorough": "n<=7, 3 fill rows",
 }
 WALL_BUDGET = {"quick": 300, "thorough": 2400}
 ASSUMPTIONS = ["spectrum invariant: eigenvalues of the complex adjoint compared as multisets with a conditioning-free bound only for normal inputs; otherwise characteristic-polynomial coefficients (trace powers) are compared"]
 
-STRUCT = ["generic", "hermitian", "triu", "tril", "hess", "zero", "identity", "rank1", "scaled+27", "scaled-27", "ints"]
+STRUCT = ["generic", "hermitian", "triu", "tril", "hess", "zero", "identity", "rank1", "scaled+27", "scaled-27", "ints",
+          "near_hermitian_2^-20", "near_hermitian_2^-30", "near_hermitian_f32", "near_triu_2^-25", "near_hess_2^-25"]
 
 
 def cases(tier, seed):
@@ -77,6 +78,23 @@ def make(case, seed):
             A = np.ldexp(A, -27)
         elif st == "ints":
             A = fill.quat_int(n, n, -3, 3).astype(float)
+        elif st.startswith("near_hermitian"):
+            Hm = 0.5 * (A + O.qH(A))
+            if st.endswith("f32"):  # one triangle stored in single precision
+                A = Hm.copy()
+                for i in range(n):
+                    A[i, :i] = Hm[i, :i].astype(np.float32).astype(float)
+            else:
+                e = int(st.split("^")[1])
+                A = Hm + np.ldexp(fill.quat(n, n, bits=4, lo=-40, hi=40), e)
+        elif st == "near_triu_2^-25":
+            P_ = np.ldexp(fill.quat(n, n, bits=4, lo=-40, hi=40), -25)
+            for i in range(n):
+                A[i, :i] = P_[i, :i]
+        elif st == "near_hess_2^-25":
+            P_ = np.ldexp(fill.quat(n, n, bits=4, lo=-40, hi=40), -25)
+            for i in range(n):
+                A[i, : max(i - 1, 0)] = P_[i, : max(i - 1, 0)]
         return A
     if grp == "colmask":
         A = fill.quat(n, n, bits=4, lo=-40, hi=40) if case["cls"] == "generic" else fill.quat_int(n, n, -3, 3).astype(float)
